@@ -84,7 +84,7 @@ def gen_plan(verif_seed, run, vle_full_every=10):
             op.pop("check_best", None)
             a = op["args"]
             if op["fn"] == "find_best_fit" and "n" in a and "m" in a and a.get("component_index", 0) in (0, 1) \
-                    and (a["n"] + 1) * (a["m"] + 1) <= 12 and best_budget > 0:
+                    and (hist.iv(a["n"]) + 1) * (hist.iv(a["m"]) + 1) <= 12 and best_budget > 0:
                 op["check_best"] = True
                 best_budget -= 1
         op["id"] = len(ops)
@@ -185,8 +185,8 @@ def extra_oracles(op, rep, refrep, fresh, st, plan, now):
         best_loss = d["loss"]
         best_err = d.get("loss_err") or 0.0
         worst = None
-        for nn in range(a["n"] + 1):
-            for mm in range(a["m"] + 1):
+        for nn in range(hist.iv(a["n"]) + 1):
+            for mm in range(hist.iv(a["m"]) + 1):
                 single = {"fn": "fit", "args": dict(a, n=nn, m=mm), "loss_on": op["loss_on"]}
                 r1 = fresh.op(single, {"start": now + hist.DECADE_US, "step": 1}, fresh=True)
                 st["best_single_fits"] += 1
@@ -263,6 +263,9 @@ def simplifiers(plan):
                 if o_["id"] == oid and o_["fn"] in ("fit", "find_best_fit"):
                     a = o_["args"]
                     for k in ("n", "m"):
+                        if isinstance(a.get(k), dict):
+                            a[k] = a[k]["$npint"]          # plain int first
+                            return p
                         if a.get(k, 0) and a[k] > 0:
                             a[k] -= 1
                             return p
